@@ -47,6 +47,13 @@ Two models live here.
               [x] = self.next                               # slot is read, never emptied
               yield self._emit(x, self.next_metadata)
 
+`arrive` is enabled in every state.  In particular it may follow a `resume` that started a
+delivery while the coroutine is still inside `self._emit(x, …)`: a consumer that itself emits
+into the upstream of `latest` during the call that hands it `x` (re-entrant arrival, feedback
+cycle).  That is why the order inside `resume` matters and is modelled as one atomic step:
+the slot is emptied BEFORE the delivery starts, so the re-entrant `update` finds an empty slot
+and what it writes is not wiped afterwards.
+
 Arrivals are numbered 1, 2, 3, … in order of arrival (`arrived` is the number of
 arrivals so far, hence also the index of the newest one); the payload of arrival
 `i` plays no role in the mechanism.  `delivered` is the consumer's delivery log,
